@@ -33,6 +33,29 @@ def find_def(tree, path):
     return node
 
 
+QT_SEARCH_PINNED = """
+def search(self, pos):
+    leaf = self.leaf(pos)
+    if leaf: return leaf.search_wave(pos)
+    else: return None
+"""
+QT_SEARCH_FALLBACK = """
+def search(self, pos):
+    leaf = self.leaf(pos)
+    if leaf:
+        elt = leaf.search_wave(pos)
+        if elt is None:
+            root = self
+            while root.parent: root = root.parent
+            for elt in root.elements:
+                if in_rectangle(pos, elt.bounding_box) and \\
+                   elt.contains_point(pos): return elt
+            return None
+        return elt
+    else: return None
+"""
+
+
 def translate(ctx):
     try:
         mg = ast.parse(open(os.path.join(ctx.repo, 'mulgrids.py')).read())
@@ -77,6 +100,18 @@ def translate(ctx):
                 thr = int(st.test.comparators[0].value)
         if thr is None: raise vf.Refusal('quadtree.__init__: `if self.num_elements > <literal>` not found')
         out.append('Definition quadtree_split_threshold : nat := %d.' % thr)
+        # quadtree.search: the pinned form (result of the neighbour wave) or the repaired form (proposed fix
+        # C12-quadtree-search-fallback: when the wave finds nothing, the first element of the root whose bounding box
+        # and polygon contain the point); any other shape is refused
+        f = find_def(mg, ['quadtree', 'search'])
+        shape = ast.dump(ast.Module(body=f.body, type_ignores=[]))
+        known = {}
+        for flag, src in (('false', QT_SEARCH_PINNED), ('true', QT_SEARCH_FALLBACK)):
+            g = ast.parse(src).body[0]
+            known[ast.dump(ast.Module(body=g.body, type_ignores=[]))] = flag
+        if shape not in known: raise vf.Refusal('quadtree.search has neither the pinned nor the repaired (fallback) form')
+        out.append('Definition quadtree_search_has_fallback : bool := %s.' % known[shape])
+        ctx.extra['quadtree_search_has_fallback'] = (known[shape] == 'true')
         ctx.gen('GenGeom', '\n'.join(out) + '\n')
         return True
     except (vf.Refusal, SyntaxError, OSError) as e:
